@@ -74,10 +74,18 @@ pub fn ledger_live() -> usize {
   (0..n).filter(|&i| l.slots[i].load(Ordering::SeqCst) == 0).count()
 }
 
+/// Words of inline guard: makes the payload ~300 bytes, so a slot that is overwritten while
+/// it is being copied out (or copied in twice) shows as a torn value.
+const GUARD: usize = 32;
+const GUARD_XOR: u64 = 0x5bd1_e995_9e37_79b9;
+/// Ids reported for payloads whose guard words do not match their id (never produced by a sender).
+pub const CORRUPT_BASE: u64 = 0xdead_0000_0000_0000;
+
 pub struct Val {
   pub id: u64,
   slot: u32,
   _heap: Option<Box<u64>>,
+  guard: [u64; GUARD],
 }
 
 impl Val {
@@ -92,7 +100,23 @@ impl Val {
       u32::MAX
     };
     let heap = if HEAP.load(Ordering::Relaxed) { Some(Box::new(id)) } else { None };
-    Val { id, slot, _heap: heap }
+    Val { id, slot, _heap: heap, guard: [id ^ GUARD_XOR; GUARD] }
+  }
+}
+
+impl Val {
+  /// True when every guard word still belongs to this id.
+  pub fn intact(&self) -> bool {
+    self.guard.iter().all(|g| *g == self.id ^ GUARD_XOR)
+  }
+  /// The id as the history records it: the sender's id, or a value in the CORRUPT range
+  /// (reported by the conservation oracle as a value nobody sent) when the payload is torn.
+  pub fn wid(&self) -> u64 {
+    if self.intact() {
+      self.id
+    } else {
+      CORRUPT_BASE | (self.id & 0x0000_ffff_ffff_ffff)
+    }
   }
 }
 
